@@ -7,7 +7,7 @@ out=${REGRESSION_OUT:-seeded/REGRESSION.txt}
 tmp=$(mktemp -d /tmp/reseed.XXXXXX)
 ls -d seeded/*/ | while read d; do
   d=${d%/}
-  id=$(python3 -c "import json;m=json.load(open('$d/meta.json'));print('-' if m.get('obsolete') else m['breaks_property'])")
+  id=$(python3 -c "import json;m=json.load(open('$d/meta.json'));print('-' if m.get('obsolete') else m.get('regression_check', m['breaks_property']))")
   [ "$id" = "-" ] || echo "$d $id"
 done > $tmp/list
 xargs -P $jobs -L 1 sh -c 'd=$0; id=$1; r=$(./tools/try_patch.sh "$d/patch.diff" $id 2>&1 | grep "^$id rc=" | cut -c1-160); echo "$(basename $d): $r"' < $tmp/list > $tmp/res
